@@ -28,7 +28,7 @@ def build():
         if not os.path.exists(b) or open(a).read() != open(b).read():
             shutil.copy(a, b)
     env = dict(os.environ, CARGO_NET_OFFLINE='true', RUSTFLAGS='--cfg %s' % GUARD)
-    tgt = os.path.join(BUILD, 'target')
+    tgt = os.path.join(BUILD, 'target' if tag == 'main' else 'target-' + tag)   # never share a target dir between trees (cargo reuses rlibs by name)
     # one build at a time across processes
     import fcntl
     os.makedirs(BUILD, exist_ok=True)
